@@ -152,7 +152,11 @@ func iterCB(i *simdjson.Iter) string {
 type parseOpts struct {
 	reuse       *simdjson.ParsedJson
 	defaultOpts bool
+	inplace     bool // the input is copied into one long-lived buffer: successive inputs share address (and often length)
 }
+
+// sharedInput is the caller-side buffer of `inplace` parses: a program that reads every message into the same buffer
+var sharedInput = make([]byte, 0, 1<<20)
 
 var nextParse parseOpts
 
@@ -213,6 +217,11 @@ func (st *store) exec(line string) (out string) {
 	switch ws[0] {
 	case "parse":
 		b := unhx(ws[4])
+		if nextParse.inplace && len(b) <= cap(sharedInput) {
+			sharedInput = sharedInput[:len(b)]
+			copy(sharedInput, b)
+			b = sharedInput
+		}
 		st.inputs[ws[1]] = b
 		var opts []simdjson.ParserOption
 		if !(ws[3] == "1" && nextParse.defaultOpts) {
